@@ -314,9 +314,9 @@ func clearCheck(seed uint64) string {
 
 func RunC15(col *core.Collector, tier, variant string, seed uint64, shard, nshards int, replayDir, outBase string) {
 	col.Note("rule: a trial = lookups and per-key atomic updates on hot keys (recorded, porcupine per key), a stable key set that every concurrent lookup and every concurrent Range must find exactly once, churn goroutines that grow and shrink the table, Rangers checking once-only / nothing-removed-before-start, Size at quiescence, Clear; non-trivial = the table grew or shrank during the trial and at least one hot key history overlapped; distinct = hash of the hot-key history")
-	n := 200
+	n := 500
 	if tier == "thorough" {
-		n = 5000
+		n = 12000
 	}
 	if variant != "plain" {
 		n /= 3
@@ -561,9 +561,9 @@ func mpscSequential(init, max uint32) string {
 
 func RunC16(col *core.Collector, tier, variant string, seed uint64, shard, nshards int, replayDir, outBase string) {
 	col.Note("rule: a trial = 1-16 producers pushing unique (producer, seq) elements into the cache's MPSC buffer built with an (initial, max) capacity pair while one consumer pops, delays between index CAS and element publication and inside resize; non-trivial = the buffer grew by linking at least one chunk (accepted > initial capacity) with 2+ producers; distinct = hash of (config, refusals, delivered order)")
-	n := 400
+	n := 900
 	if tier == "thorough" {
-		n = 20000
+		n = 30000
 	}
 	if variant != "plain" {
 		n /= 3
@@ -740,9 +740,9 @@ func runStriped(cfg stripedCfg) (violation string, st map[string]int64) {
 
 func RunC17(col *core.Collector, tier, variant string, seed uint64, shard, nshards int, replayDir, outBase string) {
 	col.Note("rule: a trial = many recorders adding distinct nodes to the cache's striped lossy buffer against one drainer, with delays between tail CAS and slot publication and under the busy flag (stripe creation and table doubling under contention); non-trivial = at least one add was refused or failed and at least 2 recorders; distinct = hash of (config, counts)")
-	n := 400
+	n := 3000
 	if tier == "thorough" {
-		n = 20000
+		n = 100000
 	}
 	if variant != "plain" {
 		n /= 3
@@ -915,9 +915,9 @@ func runAdmit(seed uint64) (violation string, checked, randomUsed int64) {
 
 func RunC18(col *core.Collector, tier, variant string, seed uint64, shard, nshards int, replayDir, outBase string) {
 	col.Note("rule: a case = one sketch instance (fresh hash seed) with a capacity from 1 to 100000 incl. non powers of two, a generated recording order with a hot key, growing ensureCapacity calls and aging steps, compared with exact per-period reference counts; plus admission cases with injected random words; non-trivial = at least 200 recordings and one aging step (explicit or end of period); distinct = case seed")
-	n := 2000
+	n := 12000
 	if tier == "thorough" {
-		n = 200000
+		n = 600000
 	}
 	for i := shard; i < n; i += nshards {
 		cs := core.Derive(seed, core.StrLabel("C18"), uint64(i))
